@@ -37,6 +37,18 @@ const PRIMS: &[&str] = &["u8", "u16", "u32", "u64", "u128", "usize", "i8", "i16"
 const MACRO_OK: &[&str] = &["vec", "println", "eprintln", "format", "print", "eprint", "write", "writeln", "dbg", "matches", "todo", "unimplemented", "unreachable", "panic"];
 const MACRO_ASSERT: &[&str] = &["assert", "assert_eq", "assert_ne", "debug_assert", "debug_assert_eq", "debug_assert_ne"];
 
+/// source position whose coverage region is executed exactly once per execution of the block: the start of the first
+/// statement — for a leading `for` loop the iterator expression (the `for` keyword / pattern belong to the loop's own
+/// regions); a leading `while`/`loop` has no such position (site is then not compared with the measurement)
+pub fn site_anchor(b: &Block) -> ((usize, usize), bool) {
+    match b.stmts.first() {
+        None => (pos_of(b), false),
+        Some(Stmt::Expr(Expr::ForLoop(f), _)) => (pos_of(&*f.expr), true),
+        Some(Stmt::Expr(Expr::While(_), _)) | Some(Stmt::Expr(Expr::Loop(_), _)) => (pos_of(b), false),
+        Some(s) => (pos_of(s), true),
+    }
+}
+
 fn path_name(p: &syn::Path) -> String {
     p.segments.iter().map(|s| s.ident.to_string()).collect::<Vec<_>>().join("::")
 }
@@ -101,11 +113,9 @@ impl Tr {
         cx.push_scope();
         let mut out = vec![];
         if let Some((kind, header)) = site {
-            let (pos, end) = match b.stmts.first() {
-                Some(s) => (pos_of(s), end_of(b)),
-                None => (pos_of(b), end_of(b)),
-            };
-            let kind = if b.stmts.is_empty() { format!("{kind}-empty") } else { kind.to_string() };
+            let (pos, anchored) = site_anchor(b);
+            let end = end_of(b);
+            let kind = if b.stmts.is_empty() { format!("{kind}-empty") } else if !anchored { format!("{kind}-unanchored") } else { kind.to_string() };
             out.push(Node::Site(self.new_site(cx, &kind, pos, end, header)));
         }
         for s in &b.stmts {
